@@ -313,6 +313,23 @@ def buildMembers : List (Bytes × JVal) → Nat → Nat → List Op × Nat
     (o1 ++ [.put (some parent) k (some root)] ++ o2, n2)
 end
 
+mutual
+/-- what `json_parse` additionally demands of an RFC value (C02's `okV`, executable): no string or
+name contains a 0 byte (`\u0000` is refused) and no name is longer than `JSON_MAX_KEY` — measured
+on the **decoded** name (`json_value_size(key)` after un-escaping), not on its literal -/
+def JVal.parseable : JVal → Bool
+  | .str s => !s.contains 0
+  | .list l => parseableList l
+  | .dict kvs => parseableKvs kvs
+  | _ => true
+def parseableList : List JVal → Bool
+  | [] => true
+  | v :: vs => v.parseable && parseableList vs
+def parseableKvs : List (Bytes × JVal) → Bool
+  | [] => true
+  | (k, v) :: r => !k.contains 0 && decide (k.length ≤ Heap.jsonMaxKey) && v.parseable && parseableKvs r
+end
+
 /-- the history the model runs for a tree that came from `json_parse`: build it through the
 builder calls on a heap whose next free id is `base`, then seal the root (a parsed value is never
 `UNATTACHED`).  `UsualProofs/C03/Load.lean` proves this puts exactly `v` at id `base`. -/
